@@ -15,14 +15,14 @@ package upstream
 //@ type udpWithFallback
 //@   immutable u, t
 
-//@ func (u *udpWithFallback) ExchangeContext [C17]
+//@ func (u *udpWithFallback) ExchangeContext [C17, C14]
 //@   requires u != nil && u.u != nil && u.t != nil && ctx != nil && len(q) >= 12
 //@   modifies *
-//@   ensures calls(pipelineExchange) == 1 && arg(pipelineExchange, 0, 0) == u.u && arg(pipelineExchange, 0, 2) == q
+//@   ensures calls(pipelineExchange) == 1 && arg(pipelineExchange, 0, 0) == u.u && arg(pipelineExchange, 0, 1) == ctx && arg(pipelineExchange, 0, 2) == q
 //@   ensures ret(pipelineExchange, 0, 1) != nil ==> result_0 == nil && result_1 == ret(pipelineExchange, 0, 1) && calls(reuseExchange) == 0
 //@   ensures ret(pipelineExchange, 0, 1) == nil && !aftercall(pipelineExchange, 0, tcbit(*ret(pipelineExchange, 0, 0))) ==> result_0 == ret(pipelineExchange, 0, 0) && result_1 == nil && calls(reuseExchange) == 0 && calls(ReleaseBuf) == 0
 //@   ensures ret(pipelineExchange, 0, 1) == nil && aftercall(pipelineExchange, 0, tcbit(*ret(pipelineExchange, 0, 0))) ==> calls(reuseExchange) == 1 && calls(ReleaseBuf) == 1
-//@   ensures calls(reuseExchange) == 1 ==> arg(reuseExchange, 0, 0) == u.t && arg(reuseExchange, 0, 2) == q && result_0 == ret(reuseExchange, 0, 0) && result_1 == ret(reuseExchange, 0, 1)
+//@   ensures calls(reuseExchange) == 1 ==> arg(reuseExchange, 0, 0) == u.t && arg(reuseExchange, 0, 1) == ctx && arg(reuseExchange, 0, 2) == q && result_0 == ret(reuseExchange, 0, 0) && result_1 == ret(reuseExchange, 0, 1)
 //@   ensures calls(ReleaseBuf) == 1 ==> arg(ReleaseBuf, 0, 0) == ret(pipelineExchange, 0, 0)
 
 // ---------------------------------------------------------------------------
